@@ -8,6 +8,7 @@ import Driver.Adapters
 import Driver.ContextManager
 import Driver.ExitStack
 import Driver.GroupBy
+import Driver.GroupByFault
 import Driver.Tools
 open Lean
 
@@ -16,6 +17,7 @@ def dispatch (j : Json) : Except String Json := do
   match m with
   | "exitstack" => Drv.ExitStack.run j
   | "groupby" => Drv.GroupBy.run j
+  | "groupbyfault" => Drv.GroupByFault.run j
   | "tool" => Drv.Tools.run j
   | "contextmanager" => Drv.ContextManager.run j
   | "adapters" => Drv.Adapters.run j
